@@ -178,49 +178,46 @@ class Resolver:
 
     def reaching(self, name, at):
         """Value node reaching a use of `name` in statement `at` (None when not unambiguous)."""
-        if name in self.params or name in self.impure or name not in self.binds:
+        if name in self.params or name in self.impure or name not in self.binds or at is None:
             return None
         bs = self.binds[name]
-        if any(b[0] == "other" for b in bs):
+        if any(b[0] == "other" for b in bs) or any(id(b[1]) not in self.parent for b in bs):
             return None
-        blocks = {self.parent[id(b[1])][0] for b in bs if id(b[1]) in self.parent}
-        if len(blocks) == 1 and all(id(b[1]) in self.parent for b in bs):
-            bid = next(iter(blocks))
-            anc = self._enclosing_at_block(at, bid) if at is not None else None
+
+        def inside(stmt, b):
+            return b[1] is not stmt and any(x is b[1] for x in ast.walk(stmt))
+        cur = at
+        while cur is not None and id(cur) in self.parent:
+            bid, owner, arm = self.parent[id(cur)]
             body = self.blocks[bid]
-            order = {id(s): i for i, s in enumerate(body)}
-            if anc is None:
-                # the use is outside the block of the bindings (e.g. after an `if` arm): only a single binding
-                # in the function body's top level is safe; otherwise unknown
+            order = {id(s_): i for i, s_ in enumerate(body)}
+            pos = order[id(cur)]
+            direct = [b for b in bs if self.parent[id(b[1])][0] == bid]
+            prior = [b for b in direct if order[id(b[1])] < pos]
+            if prior:
+                last = max(prior, key=lambda b: order[id(b[1])])
+                between = body[order[id(last[1])] + 1:pos]
+                if any(inside(s_, b) for s_ in between for b in bs):
+                    return None                       # conditionally re-bound on the way
+                return self._value(last)
+            nested = [(s_, [b for b in bs if inside(s_, b)]) for s_ in body[:pos]]
+            nested = [(s_, l) for s_, l in nested if l]
+            if nested:
+                if len(nested) == 1 and isinstance(nested[0][0], ast.If) and len(nested[0][1]) == 2:
+                    if_st, (b1, b2) = nested[0]
+                    p1, p2 = self.parent[id(b1[1])], self.parent[id(b2[1])]
+                    if p1[1] is if_st and p2[1] is if_st and {p1[2], p2[2]} == {"body", "orelse"}:
+                        a, b = (b1, b2) if p1[2] == "body" else (b2, b1)
+                        va, vb = self._value(a), self._value(b)
+                        phi = ast.Call(func=ast.Name(id="Phi", ctx=ast.Load()), args=[if_st.test, va, vb], keywords=[])
+                        phi._at = (if_st, a[1], b[1])
+                        return phi
                 return None
-            pos = order[id(anc)]
-            cands = [b for b in bs if order[id(b[1])] < pos]
-            if not cands:
-                return None
-            b = max(cands, key=lambda b: order[id(b[1])])
-            # a binding inside a loop body that is also used earlier in the same body is loop-carried: the use before
-            # the binding was answered above (no candidate) so this one is fine
-            return self._value(b)
-        if len(bs) == 2 and all(id(b[1]) in self.parent for b in bs):
-            (b1, b2) = bs
-            p1, p2 = self.parent[id(b1[1])], self.parent[id(b2[1])]
-            if p1[1] is not None and p1[1] is p2[1] and isinstance(p1[1], ast.If) and {p1[2], p2[2]} == {"body", "orelse"}:
-                if_st = p1[1]
-                # the use must come after the `if`
-                if at is not None:
-                    ifb = self.parent[id(if_st)][0]
-                    anc = self._enclosing_at_block(at, ifb)
-                    body = self.blocks[ifb]
-                    order = {id(s): i for i, s in enumerate(body)}
-                    if anc is None or order[id(anc)] <= order[id(if_st)]:
-                        return None
-                a, b = (b1, b2) if p1[2] == "body" else (b2, b1)
-                va, vb = self._value(a), self._value(b)
-                if va is None or vb is None:
-                    return None
-                phi = ast.Call(func=ast.Name(id="Phi", ctx=ast.Load()), args=[if_st.test, va, vb], keywords=[])
-                phi._at = (if_st, a[1], b[1])
-                return phi
+            if isinstance(owner, (ast.For, ast.While, ast.AsyncFor)) and arm == "body":
+                later = body[pos:]
+                if any(b[1] is s_ or inside(s_, b) for s_ in later for b in bs):
+                    return None                       # loop-carried
+            cur = owner
         return None
 
     def reaching_attr(self, attr, at):
